@@ -83,6 +83,8 @@ CLIP_SPECS = [
     {'conv': 'shoc_standard', 'ny': 4, 'nx': 3}, {'conv': 'shoc_standard', 'ny': 3, 'nx': 4, 'node_holes': [[0, 0]]},
     {'conv': 'ugrid', 'ny': 3, 'nx': 4}, {'conv': 'ugrid', 'ny': 3, 'nx': 4, 'split': [[0, 0], [2, 3]], 'tables': ['edge_node']},
     {'conv': 'ugrid', 'ny': 4, 'nx': 5, 'split': [[1, 1]], 'merge': [[2, 0]], 'tables': ['edge_node', 'face_edge'], 'start_index': 1},
+    # coordinate arrays in column-major (Fortran) memory order: same values, dimensions and shapes
+    {'conv': 'shoc_standard', 'ny': 3, 'nx': 4, 'fortran': True},
     # a mesh that stores its face-face table: rings are still "shares a node", corner neighbours included, not "shares an edge"
     {'conv': 'ugrid', 'ny': 3, 'nx': 4, 'split': [[1, 1]], 'tables': ['face_face'], 'start_index': 1},
     {'conv': 'ugrid', 'ny': 3, 'nx': 4, 'tables': ['edge_node', 'edge_face', 'face_face']},
